@@ -52,9 +52,36 @@ func VX_C09_observe() {
 	n, P := vx.ParamInt("n"), vx.ParamInt("P")
 	names := []string{"a", "f", "c", "s", "e"}
 	cols := []vxCol{vxMakeColLite("int", P), vxMakeColLite("float", P), vxMakeColLite("bool", P), vxMakeColLite("string", P), vxMakeColLite("enum", P)}
-	ix := vxConcIndex(n, P)
+	if vx.HasParam("ix") {
+		// fewer value-shape forks in the extra index-shape job: no NaN, fixed bools
+		for k := range cols[1].f {
+			vx.Assume(cols[1].f[k] == cols[1].f[k])
+			cols[2].b[k] = k%2 == 0
+		}
+	}
+	var ix []uint32
+	if vx.HasParam("ix") && vx.ParamStr("ix") == "swap01" {
+		// full-length index, first two rows swapped, last row in place
+		ix = vxIota(n)
+		ix[0], ix[1] = 1, 0
+	} else {
+		ix = vxConcIndex(n, P)
+	}
 	f := vxFrame(names, cols, ix)
+	if vx.HasParam("pre") {
+		// a frame obtained by projecting and then replacing a moved column
+		f = f.Select("e", "s", "c", "f", "a").Copy("s", "e")
+		names = []string{"e", "s", "c", "f", "a"}
+		ec := cols[4]
+		sc := ec
+		sc.typ = "enum" // Copy shares the enum column under the name s
+		cols = []vxCol{ec, sc, cols[2], cols[1], cols[0]}
+	}
 	vxCheckFrame(f, names, cols, ix, "views")
+	if vx.HasParam("pre") {
+		vx.Reach("end")
+		return
+	}
 	// Slice() of every view
 	ai := f.MustIntView("a").Slice()
 	fi := f.MustFloatView("f").Slice()
